@@ -294,6 +294,7 @@ def rescale_rule(ctx, d2):
             d2.ok(cons, 'frozen exception (%d stores): %s' % (len(sites), PERMUTERS[cons]), f)
             continue
         cfg = CFG(f.node)
+        paths_cache = {}
         for n in sites:
             recv = src(n.value) if isinstance(n, ast.Attribute) else src(n.value.value)
             stmt = n
@@ -312,29 +313,43 @@ def rescale_rule(ctx, d2):
                    for x in sibs):
                 d2.ok(cons, 'store to %s belongs to the empty-reaction branch (all-zero stoichiometry, nothing to scale)' % src(n), f, stmt)
                 continue
-            # inline normalisation:  X._stoichiometry = s / -(s[X._reactant_index])
+            # the value stored, read per path with its locals resolved (a value built into a local first reads like the direct store):
+            #   (a) inline normalisation  X._stoichiometry = s / -(s[X._reactant_index])
+            #   (b) a copy of the stoichiometry of an operand that _math_compatible_reaction has accepted (same reactant, same basis): already normalised
             if isinstance(stmt, ast.Assign) and isinstance(n, ast.Attribute) and n.attr == '_stoichiometry':
-                v = stmt.value
-                if isinstance(v, ast.BinOp) and isinstance(v.op, ast.Div) and isinstance(v.right, ast.UnaryOp) \
-                        and isinstance(v.right.op, ast.USub) and isinstance(v.right.operand, ast.Subscript) \
-                        and src(v.right.operand.value) == src(v.left) \
-                        and src(v.right.operand.slice) == recv + '._reactant_index':
-                    d2.ok(cons, '%s._stoichiometry = s / -(s[%s._reactant_index]) (inline normalisation)' % (recv, recv), f, stmt)
-                    continue
+                if paths_cache.get('ps') is None:
+                    from ..resolve import resolved as _resolved, path_defs as _path_defs
+                    paths_cache['ps'] = [p_ for p_ in run_paths(f.node, max_paths=2000)[0]]
+                forms = []
+                for p_ in paths_cache['ps']:
+                    for e_ in p_.events:
+                        if e_.kind == 'store' and e_.stmt is stmt and e_.node is n:
+                            from ..resolve import resolved as _resolved, path_defs as _path_defs
+                            defs_ = _path_defs(p_, e_)
+                            vetted_names = {k_ for k_, v_ in defs_.items() if isinstance(v_, ast.Call) and src(v_.func) == 'self._math_compatible_reaction'}
+                            forms.append((_resolved(stmt.value, {k_: v_ for k_, v_ in defs_.items() if k_ not in vetted_names}, keep=set(f.params) - set(defs_)), vetted_names))
 
-            # a copy of the stoichiometry of an operand that _math_compatible_reaction has accepted (same reactant, same basis): already normalised
-            if isinstance(stmt, ast.Assign) and isinstance(n, ast.Attribute) and n.attr == '_stoichiometry':
-                v = stmt.value
-                if isinstance(v, ast.Call) and isinstance(v.func, ast.Attribute) and v.func.attr == 'copy' and not v.args \
-                        and isinstance(v.func.value, ast.Attribute) and v.func.value.attr == '_stoichiometry' and isinstance(v.func.value.value, ast.Name):
-                    opn = v.func.value.value.id
-                    vetted = any(isinstance(x, ast.Assign) and any(isinstance(t, ast.Name) and t.id == opn for t in x.targets)
-                                 and isinstance(x.value, ast.Call) and src(x.value.func) == 'self._math_compatible_reaction' and x.lineno < stmt.lineno
-                                 for x in walk_no_nested(f.node))
-                    if vetted and recv == 'self':
-                        d2.ok(cons, 'self._stoichiometry = %s._stoichiometry.copy(): copy of an operand vetted by _math_compatible_reaction (same reactant and basis, '
-                              'hence already normalised)' % opn, f, stmt)
-                        continue
+                def form_ok(v, vetted_names):
+                    if isinstance(v, ast.BinOp) and isinstance(v.op, ast.Div) and isinstance(v.right, ast.UnaryOp) \
+                            and isinstance(v.right.op, ast.USub) and isinstance(v.right.operand, ast.Subscript) \
+                            and ast.dump(v.right.operand.value) == ast.dump(v.left) \
+                            and src(v.right.operand.slice) == recv + '._reactant_index':
+                        return 'a'
+                    if isinstance(v, ast.Call) and isinstance(v.func, ast.Attribute) and v.func.attr == 'copy' and not v.args \
+                            and isinstance(v.func.value, ast.Attribute) and v.func.value.attr == '_stoichiometry' and isinstance(v.func.value.value, ast.Name) \
+                            and v.func.value.value.id in vetted_names and recv == 'self':
+                        return 'b'
+                    return None
+                kinds_ = [form_ok(v_, vn_) for v_, vn_ in forms]
+                if forms and all(kinds_):
+                    if set(kinds_) == {'a'}:
+                        d2.ok(cons, '%s._stoichiometry = s / -(s[%s._reactant_index]) (inline normalisation)' % (recv, recv), f, stmt)
+                    elif set(kinds_) == {'b'}:
+                        d2.ok(cons, 'self._stoichiometry = <operand>._stoichiometry.copy(): copy of an operand vetted by _math_compatible_reaction (same reactant and basis, '
+                              'hence already normalised)', f, stmt)
+                    else:
+                        d2.ok(cons, 'on every path the value stored is either normalised in line or the copy of a vetted operand\'s stoichiometry', f, stmt)
+                    continue
 
             def is_rescale(nd, recv=recv):
                 if nd.ast is None or nd.kind not in ('stmt',):
@@ -368,11 +383,20 @@ def basis_rule(ctx, d3):
     for p in ps:
         if p.raised:
             continue
-        changed = any(src(t) == 'basis != %s._basis' % r and taken for t, taken in p.conds if not isinstance(t, str))
+        from ..pathcond import resolved_conds, implied as _imp
+        rc = resolved_conds(p, keep=set(f.params))
+        bp = f.params[1]
+
+        def cmp_(t, ops, a, b):
+            return isinstance(t, ast.Compare) and len(t.ops) == 1 and isinstance(t.ops[0], ops) and {src(t.left), src(t.comparators[0])} == {a, b}
+        ne = _imp(rc, lambda t: cmp_(t, ast.NotEq, bp, '%s._basis' % r))
+        eq = _imp(rc, lambda t: cmp_(t, ast.Eq, bp, '%s._basis' % r))
+        changed = ne is True or eq is False
         if not changed:
             continue
-        wt = any(src(t) == "basis == 'wt'" and taken for t, taken in p.conds if not isinstance(t, str))
-        is_set = any('ReactionSet' in src(t) and taken for t, taken in p.conds if not isinstance(t, str))
+        wt = _imp(rc, lambda t: cmp_(t, ast.Eq, bp, "'wt'")) is True
+        is_set = _imp(rc, lambda t: isinstance(t, ast.Call) and src(t.func) == 'isinstance' and len(t.args) == 2 and src(t.args[0]) == r
+                      and 'ReactionSet' in src(t.args[1])) is True
         ops = [e for e in p.events if e.kind in ('augstore', 'augname')]
         calls = [e.target for e in p.events if e.kind == 'call']
         stores = [e for e in p.events if e.kind == 'store']
